@@ -24,6 +24,10 @@ PUT_SCENARIOS = {
     'dangling-orphan': (['file', 'dir'], {'tdir_exists': True, 'pre_pay': [('t1', b'n', 'dlink'), ('t1', b'n_1', 'dlink')]}),
     'three':         (['file', 'dir', 'link'], {}),
     'volume':        (['dir', 'file'], {'src_vol': 'V1'}),
+    'bystanders-copy': (['file', 'file'], {'src_vol': 'V1', 'fallback': True, 'tdir_exists': True,
+                                           'pre_info': [('t1', b) for b in (b'n.part', b'n~', b'n.tmp', b'n_1.part')],
+                                           'pre_pay': [('t1', b'n.part', 'file'), ('t1', b'n~', 'file'), ('t1', b'n.tmp', 'dir'),
+                                                       ('t1', b'n_1.part', 'file')]}),
     'long-names':    (['file', 'dir'], {'base': LONG, 'tdir_exists': True, 'pre_pay': [('t1', 'n1', 'file')], 'pre_info': [('t1', 'n2')]}),
 }
 
@@ -42,6 +46,18 @@ SINGLE_SCENARIOS = {
     'fallback-file':   ('file', {'src_vol': 'V1', 'fallback': True}),
     'fallback-dir':    ('dir', {'src_vol': 'V1', 'fallback': True}),
     'fallback-link':   ('link', {'src_vol': 'V1', 'fallback': True}),
+    # complete, unrelated entries whose names look like scratch names of 'n' (n.part, n~, .n.tmp, n.tmp, n.bak): they
+    # are trashed entries like any other and must come through untouched, also when the move is a copy across volumes
+    'bystanders-file':     ('file', {'tdir_exists': True, 'pre_info': [('t1', b) for b in (b'n.part', b'n~', b'.n.tmp', b'n.tmp', b'n.bak')],
+                                     'pre_pay': [('t1', b'n.part', 'file'), ('t1', b'n~', 'file'), ('t1', b'.n.tmp', 'dir'),
+                                                 ('t1', b'n.tmp', 'dir'), ('t1', b'n.bak', 'file')]}),
+    'fallback-bystanders': ('file', {'src_vol': 'V1', 'fallback': True, 'tdir_exists': True,
+                                     'pre_info': [('t1', b) for b in (b'n.part', b'n~', b'.n.tmp', b'n.tmp', b'n.bak')],
+                                     'pre_pay': [('t1', b'n.part', 'file'), ('t1', b'n~', 'file'), ('t1', b'.n.tmp', 'dir'),
+                                                 ('t1', b'n.tmp', 'dir'), ('t1', b'n.bak', 'file')]}),
+    'fallback-bystanders-dir': ('dir', {'src_vol': 'V1', 'fallback': True, 'tdir_exists': True,
+                                        'pre_info': [('t1', b) for b in (b'n.part', b'n.tmp')],
+                                        'pre_pay': [('t1', b'n.part', 'dir'), ('t1', b'n.tmp', 'file')]}),
     'long-first':      ('file', {'base': LONG}),
     'long-orphan':     ('dir', {'base': LONG, 'tdir_exists': True, 'pre_pay': [('t1', 'n1', 'emptydir')]}),
 }
